@@ -249,6 +249,9 @@ def partition_shape_verifier(ctx, p, cfg):
             caps = set()
             for o in s["rv"][2]:
                 caps |= set(slice_field_bases(f.slice_of_operand(o, at=s["_pos"])))
+            # a `&self` method captures `*self` whole and projects the field inside the closure
+            hr_bb = [b_ for b_, t_ in c.calls() if is_call_to(t_, HASH_ROW)][0]
+            caps |= set(slice_field_bases(c.slice_of_operand(hr[0]["a"][1], at=(hr_bb, c.INF))))
             targ = callee_of(hr[0])["args"][-1]
             # a closure that lives in a spliced generic helper: instantiate the helper's type parameters
             sub = f.blocks[bix].get("subst") or {}
